@@ -435,7 +435,13 @@ func (b *bodyRun) runLoop(li *loopInfo) {
 		return
 	}
 	label := fmt.Sprintf("loop%d", li.ordinal)
+	if e.dry == 0 {
+		e.LoopsTotal++
+	}
 	if li.spec != nil && li.spec.Unroll > 0 {
+		if e.dry == 0 {
+			e.LoopsTerminating++ // bounded by the unwinding obligation
+		}
 		in := entry
 		for t := 0; t <= li.spec.Unroll; t++ {
 			if len(in) == 0 {
@@ -479,6 +485,8 @@ func (b *bodyRun) runLoop(li *loopInfo) {
 		eval  func(st *State, phiVals map[*ssa.Phi]Value) *smt.Term
 	}
 	var items []invItem
+	var termPhi *ssa.Phi   // counter compared with termBound in the loop test
+	var termBound ssa.Value
 	var ctrPhi *ssa.Phi
 	var ctrInit *smt.Term
 	var ctrSigned bool
@@ -587,6 +595,7 @@ func (b *bodyRun) runLoop(li *loopInfo) {
 				if okForm {
 					li.rangeLoop = strict
 					bound := cmp.Y
+					termPhi, termBound = p, bound
 					lbl := fmt.Sprintf("auto:%s<=bound", name)
 					items = append(items, invItem{label: lbl, eval: func(st *State, phiVals map[*ssa.Phi]Value) *smt.Term {
 						var v Value
@@ -852,6 +861,15 @@ func (b *bodyRun) runLoop(li *loopInfo) {
 		for _, it := range items {
 			e.oblige(es.st, "inv-keep", label+"/"+it.label, it.eval(es.st, phiVals), pos)
 		}
+		if termPhi != nil {
+			// termination: the counter strictly increases and the bound it is
+			// tested against is the same at the next test
+			b0 := b.evalPure(st, termBound).(Scalar).T
+			b1 := b.evalPure(es.st, termBound).(Scalar).T
+			c0 := st.env[termPhi].(Scalar).T
+			c1 := phiVals[termPhi].(Scalar).T
+			e.oblige(es.st, "variant", label+"/counter increases towards an unchanged bound", c.And(c.BVSlt(c0, c1), c.Eq(b0, b1)), pos)
+		}
 		for p := range li.freshPhis {
 			if !valueIsLocal(phiVals[p]) {
 				e.oblige(es.st, "inv-keep", label+"/loop-carried "+p.Comment+" holds only storage of this call", c.False(), pos)
@@ -863,6 +881,13 @@ func (b *bodyRun) runLoop(li *loopInfo) {
 		}
 	}
 	b.back[li] = nil
+	if e.dry == 0 {
+		if termPhi != nil {
+			e.LoopsTerminating++
+		} else {
+			e.note("%s.%s: no termination argument (not a counted loop with a recognisable bound)", b.fn.Name(), label)
+		}
+	}
 }
 
 func hasObj(st *State, o *Object) bool {
